@@ -81,6 +81,13 @@ SCRIPTS = [
               {'prim': 'code', 'args': [[{'prim': 'CDR'}, {'prim': 'PUSH', 'args': [{'prim': 'int'}, {'int': '-1'}]}, {'prim': 'DROP'},
                                         {'prim': 'NIL', 'args': [{'prim': 'operation'}]}, {'prim': 'PAIR'}]]}],
      'storage': {'prim': 'Pair', 'args': [{'int': '18446744073709551616'}, {'string': 'é'}, {'bytes': ''}]}},
+    # a script whose storage type mentions every nullary type primitive (each has its own tag in the binary form)
+    {'code': [{'prim': 'parameter', 'args': [{'prim': 'unit'}]},
+              {'prim': 'storage', 'args': [{'prim': 'pair', 'args': [{'prim': t} for t in (
+                  'unit', 'chain_id', 'key', 'key_hash', 'signature', 'address', 'timestamp', 'mutez', 'bool', 'never', 'operation',
+                  'bls12_381_fr', 'bls12_381_g1', 'bls12_381_g2', 'chest', 'chest_key')]}]},
+              {'prim': 'code', 'args': [[{'prim': 'CDR'}, {'prim': 'NIL', 'args': [{'prim': 'operation'}]}, {'prim': 'PAIR'}]]}],
+     'storage': UNIT},
 ]
 PUBKEYS = [b58.enc('edpk', bytes(32)), b58.enc('edpk', b'\xff' * 32),
            b58.enc('sppk', b'\x02' + bytes(32)), b58.enc('sppk', b'\x03' + b'\xff' * 32),
